@@ -611,6 +611,19 @@ func (e *Engine) Fail(kind, label, site, detail string) {
 	panic(pathEnd{"violation", label})
 }
 
+// Report records a violation that holds on the whole current path and lets the path continue.
+func (e *Engine) Report(kind, label, site, detail string) {
+	if e.vioKeys[kind+"|"+label+"|"+site] {
+		return
+	}
+	r := e.checkPath()
+	if r == Sat {
+		e.recordViolation(kind, label, site, detail)
+	} else if r == Unknown {
+		e.noteUnknown("report " + label)
+	}
+}
+
 func (e *Engine) modelInputs() (map[string]interface{}, *Model, bool) {
 	// the solver is in a Sat state
 	var ts []*Term
